@@ -209,12 +209,26 @@ def rand_tok(rng, variadic):
     return {"mods": mods, "base": b("sym", e=rng.choice(EXPRS))}
 
 
+def printed_bindings():
+    """what the public print_bindings() shows, parsed (names, sizes, shapes)"""
+    import contextlib
+    import io
+    import jaxtyping
+    from . import render as R
+    buf = io.StringIO()
+    with contextlib.redirect_stdout(buf):
+        jaxtyping.print_bindings()
+    b = R.parse_bindings(buf.getvalue())
+    return {"single": b["single"], "variadic": {k: v["s"] for k, v in b["variadic"].items()}}
+
+
 def run_random_chunk(args):
     seed, ntraces, out_path, id0 = args
     from . import render as R
     import numpy as np
     rng = random.Random(seed)
     rid = id0
+    holder_bad = []
     with open(out_path, "w") as f:
         for _ in range(ntraces):
             nval = rng.randint(0, 3)
@@ -246,6 +260,9 @@ def run_random_chunk(args):
                         continue
                     res = R.verdict(lambda: isinstance(R.make_obj(obj), ann))
                     post, _ = R.observe_memo()
+                    pb = printed_bindings()
+                    if pb != {"single": post["single"], "variadic": {k: v["s"] for k, v in post["variadic"].items()}}:
+                        holder_bad.append({"post": post, "print_bindings": pb})
                     rows.append({"id": rid, "toks": toks, "obj": obj,
                                  "pre": {"single": pre["single"], "variadic": pre["variadic"]},
                                  "args": pre.get("args", {}), "lab": "", "fl": False, "res": res, "post": post})
@@ -257,6 +274,9 @@ def run_random_chunk(args):
                     rows[i]["discontinuity"] = True
             for r in rows:
                 f.write(json.dumps(r, separators=(",", ":")) + "\n")
+    if holder_bad:
+        with open(out_path + ".pb", "w") as g:
+            json.dump(holder_bad[:20], g)
     return rid - id0
 
 
@@ -282,7 +302,13 @@ def random_histories(chk, ntraces, seed):
                 if '"discontinuity"' in line:
                     r = json.loads(line)
                     chk.disagree(f"C01:discontinuity:{r['id']}", {"row": r, "what": "context changed between two checks"})
-    chk.part("random_histories", traces=per * nproc, rows=total, accepted_with_bindings=nontriv)
+    for fp in files:
+        if os.path.exists(fp + ".pb"):
+            for b in json.load(open(fp + ".pb"))[:5]:
+                chk.disagree(f"C01:print_bindings:{json.dumps(b['post'], sort_keys=True)[:150]}",
+                             {"what": "print_bindings() does not show exactly the bindings in force", **b})
+    chk.part("random_histories", traces=per * nproc, rows=total, accepted_with_bindings=nontriv,
+             print_bindings_compared_after_every_check=True)
     report_mismatches(chk, files, mism, "random")
     with open(files[0]) as f:
         for i, line in enumerate(f):
